@@ -329,7 +329,11 @@ func RunC08(r *core.Run) {
 		w.Nontrivial(core.HashBytes(line))
 	})
 	// D2: every single-byte substitution of a few base lines, judged by a reference grammar
-	bases := []string{"SIP/2.0 200 OK", "sip/2.0 404 Not Found", "INVITE sip:a@b SIP/2.0", "ACK x SIP/2.0", "Sip/2.0 000 "}
+	bases := []string{"SIP/2.0 200 OK", "sip/2.0 404 Not Found", "INVITE sip:a@b SIP/2.0", "ACK x SIP/2.0", "Sip/2.0 000 ",
+		// long tokens: a scanner that changes its method after 8, 16, 48, 64 ... bytes is judged at every position
+		"INVITE sip:" + strings.Repeat("u", 70) + "@" + strings.Repeat("h", 70) + ";transport=tcp SIP/2.0",
+		strings.Repeat("M", 40) + " sip:a@b " + strings.Repeat("V", 40),
+		"SIP/2.0 486 " + strings.Repeat("Busy Here ", 9)}
 	var boffs []int64
 	var btot int64
 	for _, bl := range bases {
